@@ -1,9 +1,18 @@
 import SelenModel.Model.Lower
+import SelenModel.Model.LowerFloat
 import SelenModel.Model.Engine
 import Driver.Util
 import Driver.CoreDriver
 /-
 `lw.*` ops: the fluent-API lowering, model side.
+
+Two models are run side by side: the integer model `LModel` (`Model/Lower.lean`, the subject of the
+integer theorems of `Props/C10.lean`) on cases without float variables / float literals, and the
+general model `FLModel Float` (`Model/LowerFloat.lean`) on EVERY case.  `lw.lower` prints the dump
+of the general model; on integer-only cases the dump of the integer model must be the same text
+(`MODEL-MISMATCH` otherwise), so that both models are tied to the code.
+Floats travel as decimal `u64` bit patterns (`f <bits>` literals, `lw.fvar <lo> <hi>`) and are
+printed as `f<bits>`.
 -/
 namespace Driver
 open Selen
@@ -13,6 +22,11 @@ structure LowerSt where
   /-- a posted tree could not be built with integer constants only (the builder folds
   `int / int` to a float constant) -/
   unsupported : Bool := false
+  fm : FLModel Float := {}
+  /-- a float variable was declared or a float literal was posted: the integer model is not run -/
+  floaty : Bool := false
+  /-- the general model does not follow the case (a constant folded to `inf` / NaN) -/
+  funsupported : Bool := false
 
 partial def parseExpr : List String → Option (Expr × List String)
   | "v" :: i :: r => i.toNat?.map (fun i => (.var i, r))
@@ -24,6 +38,23 @@ partial def parseExpr : List String → Option (Expr × List String)
       let e := match op with
         | "+" => Expr.add a b | "-" => Expr.sub a b | "*" => Expr.mul a b
         | "/" => Expr.div a b | _ => Expr.mod a b
+      pure (e, r)
+    else none
+  | _ => none
+
+def lwParseBits (s : String) : Option Float := s.toNat?.map (fun n => Float.ofBits n.toUInt64)
+
+partial def lwParseFExpr : List String → Option (FExpr Float × List String)
+  | "v" :: i :: r => i.toNat?.map (fun i => (.var i, r))
+  | "k" :: k :: r => (parseInt? k).map (fun k => (.val (.i k), r))
+  | "f" :: b :: r => (lwParseBits b).map (fun x => (.val (.f x), r))
+  | op :: r =>
+    if op ∈ ["+", "-", "*", "/", "%"] then do
+      let (a, r) ← lwParseFExpr r
+      let (b, r) ← lwParseFExpr r
+      let e := match op with
+        | "+" => FExpr.add a b | "-" => FExpr.sub a b | "*" => FExpr.mul a b
+        | "/" => FExpr.div a b | _ => FExpr.mod a b
       pure (e, r)
     else none
   | _ => none
@@ -41,6 +72,17 @@ partial def parseCon : List String → Option (Con × List String)
   | "and" :: r => do let (a, r) ← parseCon r; let (b, r) ← parseCon r; pure (.and a b, r)
   | "or" :: r => do let (a, r) ← parseCon r; let (b, r) ← parseCon r; pure (.or a b, r)
   | "not" :: r => do let (a, r) ← parseCon r; pure (.not a, r)
+  | _ => none
+
+partial def lwParseFCon : List String → Option (FCon Float × List String)
+  | "cmp" :: op :: r => do
+    let op ← parseOp op
+    let (a, r) ← lwParseFExpr r
+    let (b, r) ← lwParseFExpr r
+    pure (.bin a op b, r)
+  | "and" :: r => do let (a, r) ← lwParseFCon r; let (b, r) ← lwParseFCon r; pure (.and a b, r)
+  | "or" :: r => do let (a, r) ← lwParseFCon r; let (b, r) ← lwParseFCon r; pure (.or a b, r)
+  | "not" :: r => do let (a, r) ← lwParseFCon r; pure (.not a, r)
   | _ => none
 
 /-- rebuild every expression of a constraint tree with the smart constructors -/
@@ -78,28 +120,107 @@ def showDomC (d : Dom) : String :=
     if s.length > 12 && (hi - lo + 1 == (s.length : Int)) then s!"[{lo}..{hi}#{s.length}]" else showInts s
   | _, _ => showInts s
 
+def lwShowF (x : Float) : String := s!"f{x.toBits.toNat}"
+def lwShowFList (l : List Float) : String := "[" ++ ", ".intercalate (l.map lwShowF) ++ "]"
+
+def lwShowFVal : FVal Float → String
+  | .i k => s!"ValI({k})"
+  | .f x => s!"ValF({lwShowF x})"
+
+/-- Rust `Debug` rendering of the real propagator (floats as `f<bits>`) -/
+def lwShowFLP : FLP Float → String
+  | .eqVV x y => s!"Eq \{ x: {lwShowVar x}, y: {lwShowVar y} }"
+  | .eqKV k y => s!"Eq \{ x: {lwShowFVal k}, y: {lwShowVar y} }"
+  | .neVV x y => s!"NotEquals \{ x: {lwShowVar x}, y: {lwShowVar y} }"
+  | .leVV x y => s!"LessThanOrEquals \{ x: {lwShowVar x}, y: {lwShowVar y} }"
+  | .ltVV x y => s!"LessThanOrEquals \{ x: Next({lwShowVar x}), y: {lwShowVar y} }"
+  | .addVV x y s => s!"Add \{ x: {lwShowVar x}, y: {lwShowVar y}, s: {lwShowVar s} }"
+  | .subVV x y s => s!"Add \{ x: {lwShowVar x}, y: TimesPos(x: Opposite({lwShowVar y}), scale: ValI(1)), s: {lwShowVar s} }"
+  | .mulVV x y s => s!"Mul \{ x: {lwShowVar x}, y: {lwShowVar y}, s: {lwShowVar s} }"
+  | .divVV x y s => s!"Div \{ x: {lwShowVar x}, y: {lwShowVar y}, s: {lwShowVar s} }"
+  | .modVV x y s => s!"Modulo \{ x: {lwShowVar x}, y: {lwShowVar y}, s: {lwShowVar s} }"
+  | .linEq cs xs c => s!"IntLinEq \{ coefficients: {showIntList cs}, variables: {showVarList xs}, constant: {c} }"
+  | .linLe cs xs c => s!"IntLinLe \{ coefficients: {showIntList cs}, variables: {showVarList xs}, constant: {c} }"
+  | .linNe cs xs c => s!"IntLinNe \{ coefficients: {showIntList cs}, variables: {showVarList xs}, constant: {c} }"
+  | .flinEq cs xs c => s!"FloatLinEq \{ coefficients: {lwShowFList cs}, variables: {showVarList xs}, constant: {lwShowF c} }"
+  | .flinLe cs xs c => s!"FloatLinLe \{ coefficients: {lwShowFList cs}, variables: {showVarList xs}, constant: {lwShowF c} }"
+  | .flinNe cs xs c => s!"FloatLinNe \{ coefficients: {lwShowFList cs}, variables: {showVarList xs}, constant: {lwShowF c} }"
+
+def lwShowFDom : FDom Float → String
+  | .int d => showDomC d
+  | .flt lo hi => s!"F[{lo.toBits.toNat},{hi.toBits.toNat}]"
+
+/-- `lw.lower` of the integer model -/
+def lowerDumpI (st : LowerSt) : String :=
+  if st.unsupported then "unsupported" else
+  if st.m.panicked then "panic" else
+  let m := st.m.lower
+  match m.validateErr with
+  | some e => s!"error {e}"
+  | none => s!"vars={"|".intercalate (m.doms.map showDomC)} props={" ;; ".intercalate (m.props.map showLP)}"
+
+/-- `lw.lower` of the general model -/
+def lowerDumpF (st : LowerSt) : String :=
+  if st.funsupported then "unsupported" else
+  if st.fm.panicked then "panic" else
+  let m := st.fm.lower
+  match m.validateErr with
+  | some e => s!"error {e}"
+  | none => s!"vars={"|".intercalate (m.doms.map lwShowFDom)} props={" ;; ".intercalate (m.props.map lwShowFLP)}"
+
 def lowerStep (st : LowerSt) (ws : List String) : LowerSt × String :=
   match ws with
   | "lw.var" :: vs =>
     match parseInts vs with
-    | some l => ({ st with m := (st.m.newVar ((sortInts l).eraseDups)).1 }, "ok")
+    | some l =>
+      let d := (sortInts l).eraseDups
+      ({ st with m := (st.m.newVar d).1, fm := (st.fm.newVar (.int d)).1 }, "ok")
     | none => (st, "bad-op")
+  | ["lw.fvar", lo, hi] =>
+    match lwParseBits lo, lwParseBits hi with
+    | some lo, some hi => ({ st with fm := (st.fm.newVar (.flt lo hi)).1, floaty := true }, "ok")
+    | _, _ => (st, "bad-op")
   | "lw.post" :: r =>
-    match parseCon r with
-    | some (c, []) =>
-      match buildCon c with
-      | some c' => ({ st with m := st.m.postCon c' }, "ok")
-      | none => ({ st with unsupported := true }, "ok")
+    match lwParseFCon r with
+    | some (fc, []) =>
+      /- the general model -/
+      let st :=
+        match fc.build with
+        | some c' => if c'.finite then { st with fm := st.fm.postCon c' } else { st with funsupported := true }
+        | none => { st with funsupported := true }
+      /- the integer model (integer-only trees) -/
+      match parseCon r with
+      | some (c, []) =>
+        match buildCon c with
+        | some c' => ({ st with m := st.m.postCon c' }, "ok")
+        | none => ({ st with unsupported := true }, "ok")
+      | _ => ({ st with floaty := true }, "ok")
     | _ => (st, "bad-op")
   | ["lw.lower"] =>
-    if st.unsupported then (st, "unsupported") else
-    if st.m.panicked then (st, "panic") else
-    let m := st.m.lower
+    let f := lowerDumpF st
+    if st.floaty || st.unsupported then (st, f) else
+    let i := lowerDumpI st
+    if i == f then (st, f) else (st, s!"MODEL-MISMATCH int-model={i} general-model={f}")
+  | "lw.wit" :: bs => if bs.all (fun b => (lwParseBits b).isSome) then (st, "ok") else (st, "bad-op")
+  | ["lw.prune"] =>
+    if st.funsupported then (st, "unsupported") else
+    if st.fm.panicked then (st, "panic") else
+    let m := st.fm.lower
     match m.validateErr with
     | some e => (st, s!"error {e}")
     | none =>
-    (st, s!"vars={"|".intercalate (m.doms.map showDomC)} props={" ;; ".intercalate (m.props.map showLP)}")
+      match FLModel.prunePass m.props { st := m.store } with
+      | none => (st, "skip")
+      | some (some k, _) => (st, s!"fail {k}")
+      | some (none, c) =>
+        let showV : Nat → String := fun i =>
+          match c.st i with
+          | .int d => showDomC d
+          | .flt iv => s!"F[{iv.min.toBits.toNat},{iv.max.toBits.toNat}]"
+        (st, s!"vars={"|".intercalate ((List.range m.doms.length).map showV)}")
+  | ["lw.solve"] => (st, "-")
   | ["lw.enum"] =>
+    if st.floaty then (st, "unsupported") else
     if st.unsupported then (st, "unsupported") else
     if st.m.panicked then (st, "panic") else
     let m := st.m.lower
